@@ -27,8 +27,8 @@ from fractions import Fraction
 import numpy as np
 import pandas as pd
 
-if '/repo' not in sys.path:
-    sys.path.insert(0, '/repo')
+if os.environ.get('EAO_REPO', '/repo') not in sys.path:
+    sys.path.insert(0, os.environ.get('EAO_REPO', '/repo'))
 from eaopack.basic_classes import Timegrid  # noqa: E402
 
 try:
